@@ -7,7 +7,7 @@ from ..harness import scn, gen, obs as O, pyeval, coq, impl
 from . import base_scn
 
 pid = 'C04'
-gen_modules = ['tr_state', 'tr_validators', 'tr_has_patcher', 'tr_contracts', 'tr_rules', 'tr_decorators', 'tr_pin_contracts', 'tr_rest_validators', 'tr_rest_patcher', 'tr_rest_state']
+gen_modules = ['tr_state', 'tr_validators', 'tr_has_patcher', 'tr_contracts', 'tr_rules', 'tr_decorators', 'tr_pin_contracts', 'tr_rest_validators', 'tr_rest_patcher', 'tr_rest_state', 'tr_rest_contractsconst']
 model_targets = ['Sem/Scenario.v', 'Sem/ScnMarkers.v']
 hand_modelled = ['coq/Sem/Scenario.v: do_effect (what print / sys.stderr.write / socket.socket() do on a real or patched stream)']
 explanation = ('Theorems over all marker lists about the generated has_* predicates, the linter coverage decision and the documented table; '
